@@ -122,6 +122,11 @@ def observed_fact(f):
     return fact
 
 
+def _read_def(path):
+    """a definition file as written below: JSON with whole-line // comments"""
+    return json.loads("\n".join(ln for ln in path.read_text().split("\n") if not ln.lstrip().startswith("//")))
+
+
 def run(ctx):
     quick = ctx["tier"] == "quick"
     g = defgen.DefGen(ctx["seed"])
@@ -138,14 +143,65 @@ def run(ctx):
     if scratch.exists():
         shutil.rmtree(scratch)
     ddir.mkdir(parents=True)
+    # the files are written the way upstream writes them: a licence header and version-history notes as // comment lines
+    # (which the generator strips before parsing), and "about" texts on messages and fields - some citing a URL, so that
+    # "//" also occurs INSIDE JSON strings, where it is not a comment
+    import random as _random
+    dr = _random.Random(ctx["seed"] * 7919 + 17)
+    ABOUTS = ["The broker ID.", "See https://kafka.apache.org/protocol#protocol_messages for details.", "The topic name (or null).",
+              "Duration in ms; -1 means none.", "Either http://host:port or a bare host // legacy form.", "Each entry: key=value."]
+    LICENCE = ["// Licensed to the Apache Software Foundation (ASF) under one or more", "// contributor license agreements.  See https://www.apache.org/licenses/LICENSE-2.0",
+               "//", "// Unless required by applicable law or agreed to in writing, software"]
+
+    def with_abouts(fields):
+        out = []
+        for f in fields:
+            f = dict(f)
+            if dr.random() < 0.3:
+                f["about"] = dr.choice(ABOUTS)
+            if "fields" in f:
+                f["fields"] = with_abouts(f["fields"])
+            out.append(f)
+        return out
+
     for d in defs:
-        (ddir / f"{d['name']}.json").write_text(json.dumps(d, indent=1))
+        dd = dict(d, fields=with_abouts(d["fields"]))
+        if "commonStructs" in dd:
+            dd["commonStructs"] = [dict(c, fields=with_abouts(c["fields"])) for c in dd["commonStructs"]]
+        if dr.random() < 0.5:
+            dd["about"] = dr.choice(ABOUTS)
+        lines = json.dumps(dd, indent=1).split("\n")
+        text = []
+        if dr.random() < 0.7:
+            text += LICENCE + [""]
+        for ln in lines:
+            if dr.random() < 0.04:
+                text.append(" " * dr.choice([0, 2, 6]) + dr.choice(["// Version 1 adds this field.", "//", "// Versions 2+ are flexible; see https://cwiki.apache.org/KIP-482"]))
+            text.append(ln)
+        (ddir / f"{d['name']}.json").write_text("\n".join(text) + "\n")
     viol = []
     src, err = gentree.build(ddir, scratch / "tree")
     canon = None
     if src is None:
-        viol.append({"kind": "correspondence", "what": "the generator failed on a well-formed definition set", "detail": err[-2500:],
-                     "failing_input_found": False})
+        # which definition? each file through the tree's own parser alone (cheap), to name the failing input
+        import subprocess
+        probe = ("import sys, pathlib, json\nsys.path.insert(0, %r)\nimport codegen.parser as p\nbad = {}\n"
+                 "for f in sorted(pathlib.Path(%r).glob('*.json')):\n"
+                 "    try:\n        p.parse_file(f)\n    except BaseException as e:\n        bad[f.name] = type(e).__name__ + ': ' + str(e)[:200]\n"
+                 "print(json.dumps(bad))\n") % (str(common.REPO), str(ddir))
+        culprits = {}
+        try:
+            pr = subprocess.run([common.PY, "-c", probe], capture_output=True, text=True, timeout=600, env=common.child_env(), cwd=str(scratch))
+            culprits = json.loads(pr.stdout.strip().splitlines()[-1]) if pr.returncode == 0 and pr.stdout.strip() else {}
+        except Exception:  # noqa
+            culprits = {}
+        v = {"kind": "property" if culprits else "correspondence", "what": "the generator failed on a well-formed definition set",
+             "detail": err[-2500:], "failing_input_found": bool(culprits)}
+        if culprits:
+            first = sorted(culprits)[0]
+            v["definitions_rejected_by_the_parser"] = dict(list(sorted(culprits.items()))[:5])
+            v["definition_file"] = (ddir / first).read_text()[:3000]
+        viol.append(v)
     else:
         ok, out = gentree.canonical(src, scratch / "canon.json")
         if not ok:
@@ -346,13 +402,13 @@ def run(ctx):
                      "failing_input_found": True, "n_disagreements": len(wire_failing),
                      "cases": [{"definition": wire_meta[i][0], "version": wire_meta[i][1], "class": wire_meta[i][2],
                                 "instance": wire_meta[i][3], "bytes_written_by_kio": str(wire_meta[i][4])[:300]} for i in wire_failing[:5]],
-                     "definitions": [json.loads((ddir / f"{n}.json").read_text()) for n in sorted({wire_meta[i][0] for i in wire_failing})[:2]]})
+                     "definitions": [_read_def(ddir / f"{n}.json") for n in sorted({wire_meta[i][0] for i in wire_failing})[:2]]})
     elif failing:
         bad_defs = sorted({meta[i][0] for i in failing})[:3]
         viol.append({"kind": "correspondence", "observation": "C16: classes emitted by codegen vs Gen/Gen.v gen_module",
                      "failing_input_found": False, "n_disagreements": len(failing),
                      "cases": [{"definition": meta[i][0], "version": meta[i][1]} for i in failing[:5]],
-                     "definitions": [json.loads((ddir / f"{n}.json").read_text()) for n in bad_defs][:2]})
+                     "definitions": [_read_def(ddir / f"{n}.json") for n in bad_defs][:2]})
     shutil.rmtree(scratch / "tree", ignore_errors=True)
     cov = {
         "programs": len(defs), "evaluations": n_modules, "distinct_nontrivial": n_modules,
